@@ -1303,6 +1303,8 @@ class Concatenate(CanBehaveLikeAVariable[T]):
             yield sources
             return
         all_values = []
+        # the concatenated expression is evaluated for its values here, wherever else the same expression is used.
+        self._child_._eval_parent_ = self
         for child_v in self._child_._evaluate__(sources):
             child_v_unwrapped = child_v[self._child_._id_].value
             if not is_iterable(child_v_unwrapped):
